@@ -18,13 +18,19 @@ import string
 from .. import core, tlc
 from .. import migrationutil as mu
 
-INVARIANTS = ["D1Frame", "ReqAgrees", "TypeOK", "JobsNeverLost", "Refuse", "MigratePreserves", "CollisionLeavesJobs", "MigrateRefuses",
+INVARIANTS = ["CliRefuse", "CliNotConfirmedNoChange", "CliMigratePreserves", "CliCollisionRefused", "CliConfigNeverHides",
+              "D1Frame", "ReqAgrees", "TypeOK", "JobsNeverLost", "Refuse", "MigratePreserves", "CollisionLeavesJobs", "MigrateRefuses",
               "UpToDateNoop", "SecondNoop", "OpensAfterwards", "LockHeld", "ChainIsFunction", "CollisionRecoverable"]
 PROPS = ["RefuseFrame", "VersionMonotone"]
 ACTIONS = ["OpenOp", "Lock", "Collect", "Null01", "Bump1", "MoveWs", "NameToDoc", "RewriteCfg", "MoveCfg", "MoveFiles", "Bump2",
            "Unlock", "Again", "ResolveCollision", "OpenAfter"]
 PRESERVE_FIELDS = ("where", "ver", "dirs", "njobs", "pdocUser", "pdocName", "cache", "hist")
 _G = {}
+
+
+def _h(*xs):
+    import hashlib
+    return int(hashlib.md5(repr(xs).encode()).hexdigest()[:8], 16)
 
 
 def _ws_class(l):
@@ -207,6 +213,169 @@ def _same(a, b):
     return type(a) is type(b) and a == b
 
 
+# ---- the command line front end ------------------------------------------------------------------------------------
+def _cli_case(case, root, out, mutate_expected=None):
+    """one layout through the command line: signac migrate (not confirmed) / -y migrate / find, job -p, init (the gate) /
+    migrate -y / [resolve a collision] / migrate -y / find; and `signac config --local ...` on fresh copies.
+    Every command is a fresh process (clifront.run_cli). Returns the number of commands run."""
+    from ..clifront import run_cli
+    import shutil
+    l0 = case["l0"]
+    if mutate_expected:
+        case = mutate_expected(case)
+    real = mu.default_real(l0)
+    scratch = os.path.dirname(root)
+    cmds = []
+    ncmd = [0]
+
+    def report(kind, sig, what):
+        out.append({"kind": kind, "sig": sig, "what": what + "; commands: " + "; ".join(cmds[-6:]) + "; layout %r" % (l0,),
+                    "case": {"l0": l0, "op": "cli"}, "real": real})
+
+    def cli(cwd, *argv):
+        st, o, e = run_cli(scratch, cwd, list(argv))
+        cmds.append("(cd %s && signac %s) -> %d" % (os.path.relpath(cwd, root), " ".join(argv), st))
+        ncmd[0] += 1
+        return st, o, e
+
+    def fresh():
+        shutil.rmtree(root, ignore_errors=True)
+        jobs = mu.write_layout(l0, root, real)
+        seen, extra = mu.project_disk(root, jobs, l0, real)
+        if seen != l0 or extra:
+            raise core.MachineryError("layout written differs from the layout intended: %r %r" % (_diff(seen, l0), extra))
+        return jobs
+
+    def changed(before):
+        after = core.snapshot(root)
+        return sorted(k for k in set(before) | set(after) if before.get(k, 0) != after.get(k, 0))
+
+    jobs = fresh()
+    sub = mu.sub_dir(root, l0, jobs, real)
+    legacy_ok = l0["where"] == "rc" and l0["ver"] in ("absent", "0", "1") and case["mig"]["st"] == 0
+    snap = core.snapshot(root)
+    # 1/2. a migration that is not confirmed changes nothing (the child's stdin is at end of file)
+    for argv in (("migrate",), ("-y", "migrate")):
+        st, o, e = cli(root, *argv)
+        ch = changed(snap)
+        if ch:
+            report("violation", "cli:migrate:not-confirmed:project-modified", "signac %s (question not answered) changed %s" % (" ".join(argv), ch[:6]))
+            jobs = fresh()
+            snap = core.snapshot(root)
+        elif st != case["notconfirmed"]["st"]:
+            report("drift", "cli:migrate:not-confirmed:exit-%d" % st, "signac %s exits %d, specification %d (%s)" % (" ".join(argv), st, case["notconfirmed"]["st"], (o + e)[-160:]))
+    # 3. every other command meets the gate: refused (exit 1) without touching anything unless the version is the supported one
+    gate_post = case["gate"]["post"]
+    for cwd, argv in ((root, ("find",)), (sub, ("job", "-p", "{}")), (root, ("init",)), (sub, ("statepoint",))):
+        st, o, e = cli(cwd, *argv)
+        if st != case["gate"]["st"]:
+            if case["gate"]["st"] == 1:
+                report("violation", "cli:gate:%s:%s:opened" % (argv[0], _ver_class(l0)), "signac %s on a project declaring schema version %s in %s exits %d: %s" % (" ".join(argv), l0["ver"], l0["where"], st, (o + e)[-160:]))
+            else:
+                report("violation", "cli:gate:%s:supported-version-refused" % argv[0], "signac %s on an up-to-date project exits %d: %s" % (" ".join(argv), st, (o + e)[-200:]))
+        ch = changed(snap)
+        if ch and gate_post == l0:
+            report("violation", "cli:gate:%s:%s:modified-%s" % (argv[0], _ver_class(l0), _changed_kinds(snap, core.snapshot(root))),
+                   "signac %s changed the directory of a project it %s: %s" % (" ".join(argv), "refused" if case["gate"]["st"] else "only opened", ch[:6]))
+            jobs = fresh()
+            snap = core.snapshot(root)
+        elif ch:
+            seen, extra = mu.project_disk(root, jobs, l0, real)
+            if seen != gate_post or extra or ch != [real["workspace"] + "/"]:
+                report("drift", "cli:gate:open-effect", "after signac %s: %r %r" % (" ".join(argv), _diff(seen, gate_post), ch[:6]))
+            snap = core.snapshot(root)
+    # 4. signac migrate -y
+    if _h(json.dumps(l0, sort_keys=True), "r") % 3 == 0:
+        st, o, e = cli(os.path.dirname(root), "migrate", "-y", "-r", root)      # the project named with -r / --root-directory
+    else:
+        st, o, e = cli(root, "migrate", "-y")
+    seen, extra = mu.project_disk(root, jobs, l0, real)
+    exp = case["mig"]
+    colliding = l0["where"] == "rc" and l0["ver"] in ("absent", "0", "1") and exp["st"] == 1
+    if st != exp["st"]:
+        report("violation" if (legacy_ok or exp["msg"] == "uptodate") else "drift", "cli:migrate:exit-%d-instead-of-%d:%s" % (st, exp["st"], exp["msg"]),
+               "signac migrate -y exits %d, the specification requires %d (%s): %s" % (st, exp["st"], exp["msg"], (o + e)[-200:]))
+    base_post = exp["post"]
+    if seen != base_post or extra:
+        bad = _diff(seen, base_post)
+        stated = [f for f in bad if (colliding and f != "lock") or (legacy_ok and f in PRESERVE_FIELDS) or f in ("dirs", "njobs", "pdocUser")]
+        if stated:
+            report("violation", "cli:migrate:%s" % ("collision:left-half-migrated" if colliding else "%s=%s" % (stated[0], _short(seen, stated[0]))),
+                   "after signac migrate -y: %r, the specification requires %r" % ({f: seen[f] for f in bad}, {f: base_post[f] for f in bad}))
+        else:
+            report("drift", "cli:migrate:layout", "after signac migrate -y: differing %r extra %r" % (bad, extra))
+    # 5. resolve a collision by hand, migrate again: the second run is a no-op or completes the migration
+    if case["resolved"]:
+        shutil.rmtree(os.path.join(root, real["workspace"]), ignore_errors=True)
+    snap2 = core.snapshot(root)
+    st, o, e = cli(root, "migrate", "-y")
+    seen2, extra2 = mu.project_disk(root, jobs, l0, real)
+    if st != case["mig2"]["st"]:
+        report("violation" if (legacy_ok or case["resolved"]) else "drift", "cli:migrate:second-run:exit-%d" % st, "second signac migrate -y exits %d, specification %d: %s" % (st, case["mig2"]["st"], (o + e)[-200:]))
+    if not case["resolved"] and (legacy_ok or exp["msg"] == "uptodate") and changed(snap2):
+        report("violation", "cli:migrate:second-run:modified-%s" % _changed_kinds(snap2, core.snapshot(root)), "a second signac migrate -y changed %s" % changed(snap2)[:6])
+    if case["resolved"] and (seen2 != case["mig2"]["post"] or extra2):
+        bad = _diff(seen2, case["mig2"]["post"])
+        report("violation" if [f for f in bad if f in PRESERVE_FIELDS] else "drift", "cli:migrate:collision-resolved:layout-differs", "after resolving the collision: %r, specification %r" % ({f: seen2[f] for f in bad}, {f: case["mig2"]["post"][f] for f in bad}))
+    # 6. signac find lists exactly the jobs
+    st, o, e = cli(root, "find")
+    ids = sorted(x for x in o.split() if x)
+    f = case["find"]
+    if st != f["st"]:
+        report("violation" if (f["st"] == 0 and (legacy_ok or case["resolved"])) or (f["st"] == 1 and st == 0) else "drift", "cli:find-after-migrate:exit-%d" % st,
+               "signac find after the migration exits %d, the specification requires %d: %s" % (st, f["st"], (o + e)[-200:]))
+    elif st == 0:
+        want = sorted(jobs) if f["n"] == len(jobs) else []
+        if ids != want:
+            report("violation", "cli:find-after-migrate:ids-differ:%s" % _ws_class(l0), "signac find lists %r, expected %r" % (ids, want))
+        elif want:
+            st, o, e = cli(root, "statepoint")
+            got = sorted(json.dumps(json.loads(x), sort_keys=True) for x in o.splitlines() if x.strip()) if st == 0 else None
+            if got != sorted(json.dumps(j["sp"], sort_keys=True) for j in jobs.values()):
+                report("violation", "cli:statepoint-after-migrate:differs", "signac statepoint prints %r" % (got,))
+    # 7. signac config --local ...: on fresh copies of the layout
+    if case.get("do_config"):
+        jobs = fresh()
+        st, o, e = cli(root, "config", "--local", "show", "schema_version")
+        if st != 0 or o.strip() != case["showver"]:
+            report("drift", "cli:config:show", "signac config --local show schema_version prints %r (exit %d), specification %r" % (o.strip(), st, case["showver"]))
+        st, o, e = cli(root, "config", "--local", "verify")
+        if st != 0 or changed(core.snapshot(root)):
+            report("drift", "cli:config:verify", "signac config --local verify exits %d: %s" % (st, e[-160:]))
+        before = case["findbefore"]
+        for k, rec in enumerate(case["sets"]):
+            if k:
+                jobs = fresh()
+            snap = core.snapshot(root)
+            val = mu.key_text(real, rec["val"]) if rec["key"] == "workspace_dir" else rec["val"]
+            st, o, e = cli(root, "config", "--local", "set", rec["key"], val)
+            seen, extra = mu.project_disk(root, jobs, l0, real)
+            if st != rec["st"] or seen != rec["post"] or extra:
+                report("violation" if seen.get("dirs") != l0["dirs"] or seen.get("njobs") != l0["njobs"] else "drift", "cli:config:set-%s" % rec["key"],
+                       "signac config --local set %s %s exits %d, layout differs in %r (%r); specification exit %d" % (rec["key"], val, st, _diff(seen, rec["post"]), extra, rec["st"]))
+            st2, o2, e2 = cli(root, "find")
+            ids = sorted(x for x in o2.split() if x)
+            # the stated promise: never silently unreachable
+            if st2 == 0 and before["st"] == 0 and ids != (sorted(jobs) if before["n"] == len(jobs) else []):
+                report("violation", "cli:config:set-%s:jobs-silently-unreachable" % rec["key"], "after signac config --local set %s %s, signac find exits 0 and lists %r instead of %r" % (rec["key"], val, ids, sorted(jobs)))
+            elif st2 != rec["find"]["st"]:
+                report("drift", "cli:config:set-%s:find-exit-%d" % (rec["key"], st2), "signac find after config set exits %d, specification %d" % (st2, rec["find"]["st"]))
+    return ncmd[0]
+
+
+def _work_cli(item):
+    idx, case = item
+    root = os.path.join(_G["root"], "k%d" % os.getpid(), "c%d" % idx, "proj")
+    os.makedirs(os.path.dirname(root), exist_ok=True)
+    out = []
+    try:
+        n = _cli_case(case, root, out)
+    finally:
+        import shutil
+        shutil.rmtree(os.path.dirname(root), ignore_errors=True)
+    return n, out
+
+
 def _work(item):
     idx, case = item
     root = os.path.join(_G["root"], "w%d" % os.getpid(), "c%d" % idx, "proj")
@@ -236,6 +405,7 @@ def probe_d1(work):
 def _tlc(ctx, name, consts, env, coverage, workers):
     consts = dict(consts, FixedD1="TRUE" if _G["fixed_d1"] else "FALSE")
     cfgt = tlc.cfg(consts, invariants=INVARIANTS, properties=PROPS, postcondition="Export")
+    env = dict(env, CLI_OUT=env.get("CLI_OUT", os.path.join(ctx.work, "cli_unused.ndjson")))
     r = tlc.run("discovery/Migration.tla", cfg_text=cfgt, workdir=ctx.work, seed=ctx.seed % 10**6, env=env, coverage=coverage,
                 allow_violation=False, workers=workers)
     ctx.add_tlc(name, r)
@@ -343,7 +513,8 @@ def run(ctx):
     # ---- spec -> code -----------------------------------------------------------------------------
     out_file = os.path.join(ctx.work, "cases.ndjson")
     consts = {"NJ": "{0, 2}" if ctx.quick else "{0, 1, 2, 3, 4, 5}", "SMALL": "TRUE" if ctx.quick else "FALSE", "MODE": '"product"'}
-    r = _tlc(ctx, "Migration: gate + chain over the product of layout options", consts, {"CASES_OUT": out_file}, True, workers)
+    cli_file = os.path.join(ctx.work, "cli_cases.ndjson")
+    r = _tlc(ctx, "Migration: gate + chain over the product of layout options", consts, {"CASES_OUT": out_file, "CLI_OUT": cli_file}, True, workers)
     ctx.require_actions(r, ACTIONS)
     cases = [json.loads(ln) for ln in open(out_file)]
     if len(cases) != r.actions["Init"][0]:
@@ -360,6 +531,24 @@ def run(ctx):
         c = mig[len(mig) // 2]
         ctx.sample({"layout": c["l0"], "op": c["op"], "expected": c["res"], "expected_post": c["post"], "second": c["res2"], "open_after": c["open"]})
     ctx.cov["cases_replayed"] = len(cases)
+    # ---- command line front end ------------------------------------------------------------------------
+    cli_cases = [json.loads(ln) for ln in open(cli_file)]
+    if len(cli_cases) * 5 != len(cases):
+        raise core.MachineryError("exported %d command-line cases for %d library cases" % (len(cli_cases), len(cases)))
+    every = 3 if ctx.quick else 2
+    sel = [dict(c, do_config=(_h(ctx.seed, k, "cfg") % 3 == 0)) for k, c in enumerate(cli_cases) if _h(ctx.seed, k, "cli") % every == 0]
+    resc = core.pmap(_work_cli, list(enumerate(sel)), procs=workers)
+    ncmd = 0
+    for (n, fs), c in zip(resc, sel):
+        ctx.count(("cli", json.dumps(c["l0"], sort_keys=True)), n=n, traces=n)
+        ncmd += n
+        findings += fs
+    ctx.cov["command_line"] = {"layouts": len(sel), "commands_run": ncmd,
+                               "commands": "signac migrate (not confirmed) / -y migrate / find / job -p / init / statepoint / migrate -y (twice, "
+                                           "collision resolved in between) / find / statepoint / config --local show|verify|set"}
+    c = sel[len(sel) // 2]
+    ctx.sample({"command_line_layout": c["l0"], "migrate_not_confirmed": c["notconfirmed"]["st"], "gate_exit": c["gate"]["st"], "migrate_y": [c["mig"]["st"], c["mig"]["msg"]],
+                "second_migrate_y": [c["mig2"]["st"], c["mig2"]["msg"]], "find_after": [c["find"]["st"], c["find"]["n"]]})
     # ---- code -> spec -----------------------------------------------------------------------------
     rcases = _random_cases(rnd, 150 if ctx.quick else 2000)
     obs = core.pmap(_work_random, list(enumerate(rcases)), procs=workers)
@@ -424,6 +613,15 @@ def run(ctx):
     out = []
     _check_case(c, os.path.join(_G["root"], "self3", "proj"), out)
     st["unmodified_case_passes"] = not out or any(f["kind"] == "violation" for f in findings)
+    g = next(c for c in cli_cases if c["gate"]["st"] == 1 and c["l0"]["where"] == "rc")
+    out = []
+    _cli_case(g, os.path.join(_G["root"], "self4", "proj"), out, mutate_expected=lambda c: dict(c, gate=dict(c["gate"], st=0)))
+    st["corrupted_cli_expectation_detected"] = any(f["sig"].startswith("cli:gate") for f in out)
+    out = []
+    _cli_case(g, os.path.join(_G["root"], "self5", "proj"), out)
+    st["unmodified_cli_case_passes"] = not out or any(f["kind"] == "violation" and f["sig"].startswith("cli:") for f in findings)
+    if not st["corrupted_cli_expectation_detected"]:
+        raise core.MachineryError("binding self-test of the command line phase failed: %r" % st)
     ctx.cov["binding_selftest"] = st
     if not (st["corrupted_expected_layout_detected"] and st["corrupted_expected_outcome_detected"]):
         raise core.MachineryError("binding self-test failed: %r" % st)
@@ -438,8 +636,19 @@ def replay(ctx, data):
     with open(fin, "w") as f:
         f.write(json.dumps({"l0": case["l0"], "op": case["op"]}) + "\n")
     cfgt = tlc.cfg({"NJ": "{0}", "SMALL": "TRUE", "MODE": '"file"', "FixedD1": "TRUE" if probe_d1(ctx.work) else "FALSE"}, invariants=INVARIANTS, postcondition="Export")
-    tlc.run("discovery/Migration.tla", cfg_text=cfgt, workdir=ctx.work, env={"CASES_FILE": fin, "CASES_OUT": fout}, coverage=False, workers=2)
+    fcli = os.path.join(ctx.work, "out_cli.ndjson")
+    tlc.run("discovery/Migration.tla", cfg_text=cfgt, workdir=ctx.work, env={"CASES_FILE": fin, "CASES_OUT": fout, "CLI_OUT": fcli}, coverage=False, workers=2)
     exp = json.loads(open(fout).readline())
+    if case["op"] == "cli":
+        ecli = dict(json.loads(open(fcli).readline()), do_config=True)
+        out = []
+        _cli_case(ecli, root, out)
+        for f in out:
+            print(f["kind"].upper(), f["sig"], "-", f["what"])
+        print("layout:", case["l0"])
+        print("specification: migrate not confirmed ->", ecli["notconfirmed"]["st"], "| gate ->", ecli["gate"]["st"], "| migrate -y ->", ecli["mig"]["st"], ecli["mig"]["msg"],
+              "| again ->", ecli["mig2"]["st"], ecli["mig2"]["msg"], "| find ->", ecli["find"]["st"], ecli["find"]["n"])
+        return 1 if any(f["kind"] == "violation" for f in out) else 0
     out = []
     real = data.get("real")
     if real and real != mu.default_real(case["l0"]):
